@@ -11,6 +11,21 @@ from vlib import hx, unhx
 LEVEL = "proof"
 
 
+def gen_big_case(rng, tag):
+    """a population whose total number of points exceeds 2^16 (global point ids in the connectivity beyond 16 bits) and whose
+    cells carry more than 2^15 points in total before the last cell starts"""
+    n0, f0 = tissue.icosphere(5)          # 10242 nodes, 20480 triangles
+    cts = [tissue.cell_type(gid=g) for g in range(5)]
+    cells = []
+    for i in range(7):
+        sc = 1e-5 * rng.uniform(0.5, 2.0)
+        n = [[p[0] * sc + i * 3e-5, p[1] * sc, p[2] * sc] for p in n0]
+        cells.append((rng.randrange(5), n, [tuple(t) for t in f0]))
+    d = os.path.join(vlib.CACHE, "tmp", "io_" + tag)
+    line = "RT " + tissue.fmt_tissue(tissue.params(), cts, cells) + " W %s %d %d %d" % (d, 0, rng.randrange(1 << 30), 0)
+    return dict(line=line, dir=d, nc=7, pre=0, mag=1e-5, via=0, big=True)
+
+
 def gen_case(rng, tag, rescale=None):
     nc = rng.randint(1, 12) if rng.random() < 0.8 else rng.randint(13, 30)
     cts = [tissue.cell_type(gid=g) for g in range(5)]
@@ -168,7 +183,7 @@ def run(ck):
     impl = vlib.build_driver("io")
     model = vlib.ocaml_model()
     rng = random.Random(ck.seed * 7477 + 16)
-    cases = []
+    cases = [gen_big_case(rng, "c16_%d_big%d" % (os.getpid(), k)) for k in range(1 if ck.tier == "quick" else 3)]
     for i in range(ncase):
         if i % 6 == 5:
             # the same population again with other coordinates, right after it in the same process: same counts, same
@@ -204,7 +219,8 @@ def run(ck):
         t = [str(len(written))]
         for ty, co, fs in written:
             t += [str(ty), str(len(co) // 3)] + [hx(x) for x in co] + [str(len(fs))] + ["%d %d %d" % f_ for f_ in fs]
-        q.append(" ".join(t)); qi.append(ci)
+        if not c.get("big"):          # the extracted (non tail-recursive) model is not run on 70000-point files; the oracle is
+            q.append(" ".join(t)); qi.append(ci)
     if q:
         mo = vlib.run([model, "vtk"], input="\n".join(q) + "\n", check=True, timeout=1200).stdout.strip().split("\n")
         for ci, l in zip(qi, mo):
